@@ -321,7 +321,11 @@ func c07RunE2E(b core.Batch, r *core.Recorder) {
 			w.WriteHeader(304)
 			return
 		}
-		rig.ServeBody(w, size%65536, 1, size, map[string]string{"Cache-Control": "max-age=600"})
+		hd := map[string]string{"Cache-Control": "max-age=600"}
+		if c07noLastModified(int64(size)) {
+			hd["Last-Modified"] = "" // this representation comes with an entity tag only
+		}
+		rig.ServeBody(w, size%65536, 1, size, hd)
 	})
 	defer o.Close()
 	opts := rig.ProxyOpts{Backend: backend, RetryInvalid: retry}
@@ -431,6 +435,9 @@ func c07RunE2E(b core.Batch, r *core.Recorder) {
 	}
 }
 
+// c07noLastModified: representations of these sizes are served without a Last-Modified header.
+func c07noLastModified(size int64) bool { return size == 17 || size == 1000 }
+
 func c07callImplSafe(s string, size int64) c07impl { return c07callImpl(s, size) }
 
 func c07e2eOne(r *core.Recorder, p *rig.ProxyRig, o *rig.Origin, mode rig.Mode, c c07e2eCase) {
@@ -464,6 +471,10 @@ func c07e2eOne(r *core.Recorder, p *rig.ProxyRig, o *rig.Origin, mode rig.Mode, 
 		return
 	}
 	mustBeFull := c.IfKind == "other-etag" || c.IfKind == "weak-etag" || c.IfKind == "date-earlier" || c.IfKind == "garbage"
+	if c07noLastModified(c.Size) && strings.HasPrefix(c.IfKind, "date-") {
+		// the origin never gave this representation a Last-Modified: no date from years ago can be its validator
+		mustBeFull = true
+	}
 	switch resp.Status {
 	case 206:
 		r.Count("e2e_206", 1)
@@ -541,7 +552,7 @@ func init() {
 		ID:    "C07",
 		Level: "exploration",
 		Rule: "function level: every string prefix+tokens with prefix in 11 unit forms and up to <depth> tokens from {-, ',', SP, 0, 1, 9, 10, size-1, size, 2^31-1, 2^31, 2^32-1, 2^32, 2^63-1, 2^63, 2^64-1, 2^64, 10^30, x} for each representation size in {0,1,2,17,1000,70000} (bounded-exhaustive) plus seeded random strings, through the real header parser + SliceSize under recover, judged against an arbitrary-precision RFC 9110 reference; " +
-			"end to end: one representative per (reference class, implementation behaviour, length) group and size, 22 fixed boundary strings per size and a seeded sample, crossed round-robin with 11 If-Range forms (incl. a present but empty / blank field), both retry_on_invalid_range settings, both backends and transports, through the real proxy against an origin that ignores Range (also with entries that are stale the moment they are stored and an origin answering If-None-Match with 304, so that slices are built from just-revalidated entries); the 206/416/200 the client parses is checked byte for byte. Non-trivial = distinct (string,size) that is not 'malformed' (function level) / distinct case (e2e).",
+			"end to end: one representative per (reference class, implementation behaviour, length) group and size, 22 fixed boundary strings per size and a seeded sample, crossed round-robin with 11 If-Range forms (incl. a present but empty / blank field), both retry_on_invalid_range settings, both backends and transports, through the real proxy against an origin that ignores Range (two of the sizes are served without Last-Modified: no date-form If-Range can match them; also with entries that are stale the moment they are stored and an origin answering If-None-Match with 304, so that slices are built from just-revalidated entries); the 206/416/200 the client parses is checked byte for byte. Non-trivial = distinct (string,size) that is not 'malformed' (function level) / distinct case (e2e).",
 		Assumptions: []string{"a Range string that is not well-formed even after removing SP/HTAB has no defined meaning: any in-bounds slice, 416 or full 200 is accepted for it",
 			"a well-formed satisfiable range may be refused (416 / 200) but if a 206 is served it must be exactly the RFC 9110 slice", "If-Range with a date later than Last-Modified is not judged"},
 		Plan:     c07Plan,
